@@ -20,11 +20,11 @@ instance (c : Ctl) (P : Slice → Prop) [DecidablePred P] (v : Pod) : Decidable 
   | some o =>
     simp only []
     have i1 : Decidable (NoRecompute c (some o) v) := inferInstance
-    have i2a : Decidable ((o.node ≠ v.node ∨ o.sa ≠ v.sa) ∧ ∀ sl ∈ c.slices, ¬ P sl → Refs sl v.ns v.name → sl.ns = v.ns) :=
+    have i2a : Decidable (idChanged o v = true ∧ ∀ sl ∈ c.slices, ¬ P sl → Refs sl v.ns v.name → sl.ns = v.ns) :=
       inferInstance
     have i2b : Decidable (∀ sl ∈ c.slices, ¬ P sl → ∀ ea ∈ sl.addrPairs, ea.1.target ≠ some (v.ns, v.name)) := inferInstance
     have i2 : Decidable (podSig o = podSig v ∨
-        ((o.node ≠ v.node ∨ o.sa ≠ v.sa) ∧ ∀ sl ∈ c.slices, ¬ P sl → Refs sl v.ns v.name → sl.ns = v.ns) ∨
+        (idChanged o v = true ∧ ∀ sl ∈ c.slices, ¬ P sl → Refs sl v.ns v.name → sl.ns = v.ns) ∨
         ∀ sl ∈ c.slices, ¬ P sl → ∀ ea ∈ sl.addrPairs, ea.1.target ≠ some (v.ns, v.name)) :=
       @instDecidableOr _ _ inferInstance (@instDecidableOr _ _ i2a i2b)
     have i3 : Decidable (o.ip = "" → v.ip ≠ "" → ∀ sl ∈ c.slices, ∀ ea ∈ sl.addrPairs,
@@ -70,14 +70,6 @@ instance (c : Ctl) (v : Pod) : Decidable (NoIPLoss c v) := by
        fun h => h.elim Or.inl (fun h => Or.inr (h o rfl))⟩
 
 instance (pods : List Pod) : Decidable (PodKeysOK pods) := by unfold PodKeysOK; exact inferInstance
-
-instance (c : Ctl) (v : Pod) : Decidable (PodIPStable c v) := by
-  unfold PodIPStable
-  cases findPod c.pods v.ns v.name with
-  | none => exact isTrue (fun _ h => by cases h)
-  | some o =>
-    exact decidable_of_iff (o.ip = "" ∨ v.ip = "" ∨ v.ip = o.ip ∨ (v.phase ≠ "F" ∧ podOK v = true))
-      ⟨fun h o' e => by cases e; exact h, fun h => h o rfl⟩
 
 instance (c : Ctl) : Decidable (NoPodAtUntargeted c) := by unfold NoPodAtUntargeted; exact inferInstance
 
